@@ -515,10 +515,14 @@ def gen_ensemble(draw, tier="quick"):
     ls = spec["len_scale"] / (spec.get("rescale") or 1.0)
     pos = draw(gens.point_cloud(dim, n_min=npts, n_max=npts, kinds=("cloud", "cluster"), scale=0.6 * ls))
     path = _sampling_path(cls, dim, "auto")
+    # unit of the variable: variance and nugget of order 10^e (SI units of small / large quantities), mean scaled alike
+    uexp = draw(st.sampled_from([0, 0, 0, -9, -12, 8]))
+    spec["var"] = float(spec["var"] * 10.0**uexp)
+    spec["nugget"] = float(spec["nugget"] * 10.0**uexp)
     return {
         "spec": spec, "pos": pos, "mode_no": draw(st.sampled_from([64, 200] if path == "mcmc" else [64, 500, 1000])),
         "mesh": draw(st.sampled_from(["unstructured", "unstructured", "structured"])),
-        "mean": draw(st.sampled_from([0.0, 1.3])),
+        "mean": draw(st.sampled_from([0.0, 1.3])) * 10.0 ** (uexp / 2),
         "seed": draw(st.integers(0, 2**31 - 1)), "seed2": draw(st.integers(0, 2**31 - 1)),
         "nseeds": (1500 if path == "inversion" else 120) if tier == "quick" else (6000 if path == "inversion" else 800),
     }
